@@ -137,7 +137,9 @@ def engine_lines(tr, free_uids=False):
             if c[0] == "send":
                 c = ["send", c[1], c[2], c[3] or "*", int(c[4])]
             elif c[0] == "advance":
-                c = ["advance", int(c[1])]
+                # the driver's target counts from the start of the system; the trace spec's from the start of this run
+                off = int(sg["base"] - sg["now0"]) if sg["base"] is not None and sg["now0"] is not None else 0
+                c = ["advance", int(c[1]) + off]
             elif c[0] == "sleep":
                 c = ["sleep", int(c[1])]
             elif c[0] == "release_freeze":
